@@ -2,15 +2,15 @@ FAMILY_SHARDS["hexenc"] = {"oracle_for": ["C35"]}
 
 PROPS["C35"] = dict(
     families=["hexenc"],
-    label="full for RLE columns (u64, i64, String, Vec<u8>, nullable or not) and bool columns; partial for delta columns; "
-          "'never panics' REFUTED on the unchanged tree (known finding) with the exact scope proved",
+    label="full for RLE columns (u64, i64, String, Vec<u8>, nullable or not) and bool columns; partial for delta columns "
+          "(delta save-then-load proved for every list inside a window that contains 0, is < 2^63 wide and lies in the type's domain: all u64 / Option<u64> lists; for signed lists outside such a window only 'if it loads it holds the same values')",
     level_text="Theorems over a model that mirrors hexane's loader (rle/decoder.rs try_next_segment + validate_after, rle/load.rs "
                "slab item counters, bool.rs BoolLoadIter::finalize, delta/indexed.rs accumulate_run + DeltaColumn::load_with) and "
                "hexane's own varint codec (the leb128 crate readers, which accept over-long encodings, and hexane's writers): for ALL "
                "value lists load(save l) = Ok l per column type; for ALL byte strings a column that loads re-saves to bytes that load "
                "to the same column; bytes that load parse, segment by segment, into exactly the canonical run list of the loaded "
-               "values (so adjacent runs never merge, no count-0/1 repeat runs, nulls only in nullable columns); a load can panic only "
-               "on a literal-run header equal to i64::MIN or on >= 2^64 declared items (both witnessed: theorems *_refuted). "
+               "values (so adjacent runs never merge, no count-0/1 repeat runs, nulls only in nullable columns); loading never "
+               "panics, for every column type incl. bool and delta (after fixes a623e02f7 and 1187ab90a). "
                "Tied to the code by byte-exact comparison of save() with the model writer (columns built from value lists and "
                "from random splice edits), by comparing accept / reject / panic and the decoded runs of load on random, mutated "
                "and hand-structured byte strings (over-long varints, count-0/1 runs, mergeable runs, truncation, i64::MIN headers, "
@@ -21,5 +21,5 @@ PROPS["C35"] = dict(
          "stream: fixed probes, random bytes, mutated valid encodings, structured segment streams. Non-trivial: a saved column with "
          ">= 2 values, or bytes that load to a non-empty column; distinct by bytes and column type.",
     assumptions=["inputs shorter than 4 GiB (the u32 byte counters of RleTail are not modelled)",
-                 "the slab cut target is DEFAULT_MAX_SEG/2 = 32 (only matters for the order of an item-count panic and a later decode error)"],
+                 "the slab cut target is DEFAULT_MAX_SEG/2 = 32 (no longer observable: every failure on the load path is an error)"],
 )
